@@ -577,6 +577,15 @@ func redactPipelineStage(stage interface{}, redactFieldNames bool, keyPath []str
 					continue
 				}
 			}
+			if str, ok := v.(string); ok && slices.Contains(NamespaceShorthandStages, k) {
+				// short form of a namespace-bearing stage: the argument is a collection name
+				if redactNamespaces {
+					newMap.Set(redactedKey, HashName(str))
+				} else {
+					newMap.Set(redactedKey, v)
+				}
+				continue
+			}
 			if str, ok := v.(string); ok && len(str) > 0 && str[0] == '$' && !redactFieldNames {
 				newMap.Set(redactedKey, v)
 				continue
